@@ -18,7 +18,7 @@ chk('C01', 'model_checking',
     'HoldsOrFlagged, FlagIffInfeasible (positive-cycle oracle), Forest, Tight in every state. Conformance: hook-H1 step traces of the real solver on the same '
     'TLC-enumerated instances plus seeded re-solve histories are validated line by line against the specification with all invariants evaluated at every step; '
     'results of IncSolver, the static Solver and libavoid\'s copy (fresh, permuted, live re-solves, scaled, medium n<=12) are judged by the declarative VpscQP.',
-    'Bounds: exhaustive n=3; step traces only for total weight <=7; lattice resolution ~4e-6; the static solver\'s known defects F2/F3 are listed in known-findings.txt.',
+    'Bounds: exhaustive n=3; step traces only for total weight <=7; lattice resolution ~4e-6; the static solver\'s known defects F2/F3 are listed in known-findings.txt. Extra stage beyond the statement: RedundantEq.tla (constraintsRemovingRedundantEqualities of both VPSC copies returns a subsequence with the same solutions; every list of <=3 constraints over 3 variables + random lists).',
     'TLA+ algorithm spec + declarative QP oracle; TLC BFS/simulation; hook-trace validation; record validation', '4/C01')
 chk('C02', 'model_checking',
     'Same pipeline as C01 with the optimality invariants: KKT and Optimal (= the best feasible active-set candidate, computed by the specification independently of '
@@ -32,7 +32,7 @@ chk('C17', 'model_checking',
     'TLC proves certificate == Bellman-Ford on every multigraph of the small class (and that every single-entry perturbation is rejected), enumerates every multigraph '
     'on 4 nodes with <=3 (quick) / <=4 (thorough) edges incl. self-loops, parallel and zero-weight edges for replay, and judges the matrices the real dijkstra / johnsons / '
     'floyd_warshall / ConstrainedFDLayout::readLinearD,G return for those and for seeded random graphs up to 100 / 300 nodes. Exact equality on a 1/8 weight lattice.',
-    'Weights are multiples of 1/8 (sums exact in doubles). floyd_warshall was repaired (fix: commit) after this check found F1.',
+    'Weights are multiples of 1/8 (sums exact in doubles). floyd_warshall was repaired (fix: commit) after this check found F1. Extra stage beyond the statement: Heap.tla / HeapTrace.tla (the PairingHeap under Dijkstra and VPSC: call histories generated from the specification, every recorded call of the real heap validated).',
     'TLA+ Bellman-Ford/certificate specification; TLC-enumerated multigraphs replayed; record validation', '4/C17')
 
 chk('C09', 'model_checking',
